@@ -16,6 +16,7 @@ import (
 	"go/constant"
 	"go/token"
 	"go/types"
+	"strings"
 
 	"golang.org/x/tools/go/ssa"
 )
@@ -313,5 +314,76 @@ func (c *Ctx) checkModifyCallbacksNilSafe(r *Report, rule string) {
 	}
 	if n == 0 {
 		r.OkWhy(rule, "eval", "no method call on the raw node parameter of a Modify callback", "", "every callback goes through type switches / comma-ok assertions")
+	}
+}
+
+// checkForcedCreateOnFreshFrames: rule C01.R12.
+//
+// A forced-local binding (SetNoChecks / CreateOrSet with the constant create == true) shadows whatever the
+// name denotes further out; that is the rule of `:=` (which passes the assignment's own token test, not a
+// constant) and of the names a new frame starts with (parameters, `..`, the function's own name in its frame).
+// In package eval such a call is therefore made only on an environment created in the same function (the result
+// of object.New*Environment). On the running environment (s.env) it turns `func name(){}` inside a function, or
+// any other definition, into a local one: the enclosing binding of that name is no longer updated.
+var forcedCreateExceptions = map[string]string{
+	"eval.(*State).SetArgs": "embedding API: defines the `args` array of the session's top-level scope before anything runs",
+}
+
+func (c *Ctx) checkForcedCreateOnFreshFrames(r *Report, rule string) {
+	cos, snc := c.Fn("object", "Environment.CreateOrSet"), c.Fn("object", "Environment.SetNoChecks")
+	fresh := func(v ssa.Value) bool {
+		seen := map[ssa.Value]bool{}
+		var walk func(v ssa.Value) bool
+		walk = func(v ssa.Value) bool {
+			if seen[v] {
+				return true
+			}
+			seen[v] = true
+			switch x := v.(type) {
+			case *ssa.Extract:
+				return walk(x.Tuple)
+			case *ssa.Phi:
+				for _, e := range x.Edges {
+					if !walk(e) {
+						return false
+					}
+				}
+				return len(x.Edges) > 0
+			case *ssa.Call:
+				callee := x.Common().StaticCallee()
+				return callee != nil && callee.Pkg != nil && shortPkg(callee.Pkg.Pkg) == "object" && strings.HasPrefix(callee.Name(), "New") && strings.HasSuffix(callee.Name(), "Environment")
+			}
+			return false
+		}
+		return walk(v)
+	}
+	n := 0
+	for _, fn := range c.ModuleSSAFuncs() {
+		if fn.Pkg == nil || shortPkg(fn.Pkg.Pkg) != "eval" {
+			continue
+		}
+		k := 0
+		for _, ci := range callsIn(fn, cos, snc) {
+			args := ci.Common().Args
+			last, ok := args[len(args)-1].(*ssa.Const)
+			if !ok || last.Value == nil || last.Value.Kind() != constant.Bool || !constant.BoolVal(last.Value) {
+				continue
+			}
+			n++
+			k++
+			desc := "a forced-local binding is made on a frame created here"
+			if k > 1 {
+				desc += " #" + itoa(k)
+			}
+			if why, ok := forcedCreateExceptions[ssaFuncName(fn)]; ok {
+				r.OkWhy(rule, ssaFuncName(fn), desc, c.Pos(ci.Pos()), "exception: "+why)
+				continue
+			}
+			r.Check(fresh(args[0]), rule, ssaFuncName(fn), desc, c.Pos(ci.Pos()),
+				"a binding call with create == true is made on an environment that was not created in this function (the running scope): the name is defined locally even when an enclosing scope already binds it, which is the rule of `:=` only; a named function defined inside a recursive function, or under a global of the same name, no longer updates that binding")
+		}
+	}
+	if n < 3 {
+		r.Undecided("%s: only %d forced-local binding calls found in package eval (parameters, `..`, self name expected)", rule, n)
 	}
 }
